@@ -2,6 +2,7 @@ package types
 
 import (
 	"fmt"
+	"math"
 	"time"
 )
 
@@ -90,6 +91,10 @@ func (p Params) Validate() error {
 	}
 	if err := validateUint64("inactive penalty duration", false)(p.InactivePenaltyDuration); err != nil {
 		return err
+	}
+	// the value is used as a time.Duration (int64 nanoseconds); larger values would turn negative
+	if p.InactivePenaltyDuration > math.MaxInt64 {
+		return fmt.Errorf("inactive penalty duration is too large: %d", p.InactivePenaltyDuration)
 	}
 	if err := validateBool()(p.IBCRequestEnabled); err != nil {
 		return err
